@@ -56,6 +56,13 @@ def scenario(rng, findings=False):
         steps.append({"op": "call", "i": rng.choice([1, 2]), "api": "copy", "j": 3,
                       "how": rng.choice(["deepcopy", "pickle"])})
         sends([1, 2, 3], rng.randint(2, 6))
+    # user data on the machine object, set before and between the copies: the clone carries what the original had
+    d["shadow_attr"] = True
+    for _ in range(rng.randint(0, 2)):
+        steps.insert(rng.randint(1, len(steps)), {"op": "call", "i": 1, "api": "set_attr", "v": f"tag{rng.randint(1, 9)}"})
+    if rng.random() < 0.3:
+        steps.append({"op": "call", "i": rng.choice([1, 2]), "api": "set_attr", "v": "late"})
+        sends([1, 2], 2)
     scn["steps"] = steps
     # listeners that are value-like (compare and hash equal to each other) or unhashable (a plain @dataclass)
     scn["listener_kind"] = rng.choice(["attr", "attr", "equal", "unhashable"])
@@ -100,7 +107,7 @@ def featurize(scn, res, v):
 def run(pid, tier, seed, replay):
     chk = framework.Check(pid, tier, seed)
     if replay:
-        rc = ec.replay_file(chk, replay)
+        rc = ec.replay_file(chk, replay, featurize=featurize)
         chk.finish()
         return rc
     rng = random.Random(17000 + seed)
@@ -120,6 +127,6 @@ def run(pid, tier, seed, replay):
         chk.report({"kind": "clone_shares_model"}, "clone.model is original.model", {"scenario": scn})
     chk.coverage["rule"] = ("history of 0-4 calls, copy (deepcopy | pickle), diverging suffixes on original and clone in random "
                             "interleaving, optionally a copy of either and a third suffix; options rtc/allow/start_value/state_field, "
-                            "models and listeners with callbacks (listeners also value-like: equal to each other, or unhashable), both engines incl. copies taken before activation")
+                            "custom attributes on the machine (with and without a class-level namesake), models and listeners with callbacks (listeners also value-like: equal to each other, or unhashable), both engines incl. copies taken before activation")
     chk.coverage["exhaustive"] = False
     return chk.finish()
